@@ -16,7 +16,8 @@ RULE = (
     "(b) Hypothesis token-level texts with identifiers, numbers, string/char literals containing comment markers, the "
     "other quote and escapes, one- and multi-line block comments, line comments (incl. continued ones), continuations "
     "placed between any two characters, real directive lines and blank lines, each also required to be silent under "
-    "gcc -E. Oracle: translation phases 2-3 written directly (model_lines_c) tracking the physical line of every "
+    "gcc -E; (b2) constructed scenario: a directive or code line holding a multi-line block comment with an interior line "
+    "ending in '*' and more text of the same logical line behind the closing '*/'. Oracle: translation phases 2-3 written directly (model_lines_c) tracking the physical line of every "
     "surviving character; observed through FileParser(path).parse_file(): set of node.lines, directive nodes per logical "
     "line, no duplicates, total_sloc. Non-trivial: a comment/literal delimiter inside the other construct, a continuation "
     "adjacent to / * \" ' or #, or a multi-line comment; distinct by text."
@@ -131,8 +132,13 @@ def features(text):
         f.add("comment-marker-in-literal")
     if re.search(r"(//|/\*)[^\n]*[\"']", text):
         f.add("quote-in-comment")
+    if STAR_LINE_RE.search(text):
+        f.add("comment-line-ends-in-star-then-text")
     return f
 
+
+# a block comment with an interior physical line ending in '*' (not continued), and non-blank text behind its '*/'
+STAR_LINE_RE = __import__("re").compile(r"/\*(?:[^*]|\*(?!/))*\*\n(?:[^*]|\*(?!/))*\*/(?:[ \t]|\\\n)*[^ \t\n\\]")
 
 SIG_SLASH = "root-cause:slash-immediately-before-backslash-newline"
 SIG_CHARLIT = "root-cause:comment-opener-inside-character-literal"
@@ -290,6 +296,82 @@ def text_strategy():
     return text()
 
 
+def star_comment_strategy():
+    """Constructed scenario: a logical line (directive or code) that holds a multi-line block comment
+    at least one of whose interior physical lines ends in '*' (banner style, not the closing '*/'),
+    with more text of the same logical line behind the closing '*/' - on the same physical line
+    and/or on backslash-continuation lines.  Phase 3 replaces the whole comment by one space, so the
+    text behind it still belongs to the logical line that was begun before it: behind '#' it is part
+    of the directive, behind code a '#' is an ordinary token, not the start of a directive."""
+    from hypothesis import strategies as st
+
+    piece = st.sampled_from(["x", " ", "*", "**", "/", "\"", "'", "//", "#", "* /", "/ *", "note", "\t"])
+    stars = st.sampled_from(["*", "*", " *", "**", "x*", "/ *", "***"])
+
+    @st.composite
+    def star_comment(draw):
+        nl = draw(st.integers(1, 3))  # physical lines begun inside the comment
+        star_at = draw(st.integers(0, nl - 1))
+        rows = []
+        for k in range(nl):
+            body = "".join(draw(st.lists(piece, max_size=3)))
+            if k == star_at:
+                end = draw(stars)
+            else:
+                end = draw(st.sampled_from(["", "", "*", " ", "x", "\\"]))  # "\\": the comment line is continued
+            rows.append(body + end)
+        last = "".join(draw(st.lists(piece, max_size=2)))
+        return "/*" + "\n".join(rows + [last]) + "*/"
+
+    def well_formed(c):
+        inner = c[2:-2].replace("\\\n", "")
+        return "*/" not in inner and "\\" not in inner
+
+    comment = star_comment().filter(well_formed)
+    behind = st.sampled_from([" 1 + 2", " a", "b", " 1 + \\\n 2", " \\\n 2", "\\\n\\\n + 3", " \"s//\" ", " /* c */ 3", " 4 // t", " (a) \\\n  /* c */ \\\n  + a", ""])
+    dir_head = st.sampled_from(["define X", "define F(a)", "define Y 1 +", "pragma omp parallel", "pragma", "define S \"/*\""])
+    directive = st.builds(
+        lambda lead, gap, head, sep, c, b: f"{lead}#{gap}{head}{sep}{c}{b}",
+        st.sampled_from(["", " ", "\t", " /* c */ "]),
+        st.sampled_from(["", " "]),
+        dir_head,
+        st.sampled_from([" ", " ", "  ", " \\\n"]),
+        comment,
+        behind,
+    )
+    # the comment sits between '#' and the directive name, or in front of the '#'
+    directive2 = st.builds(
+        lambda c, where, b: (f"{c} # define X{b}" if where else f"# {c} define X{b}"),
+        comment,
+        st.booleans(),
+        behind,
+    )
+    code = st.builds(
+        lambda pre, c, post: f"{pre}{c}{post}",
+        st.sampled_from(["int a = 1 ", "x", "foo(", "a;", "\"s\" ", "+"]),
+        comment,
+        st.sampled_from([" # define X 1", "# pragma once", " #", " b;", " + 1;", " ) \\\n ;", " # \\\n define Y", " \\\n# undef X", ""]),
+    )
+    plain = st.sampled_from(["int a;", "", "#define Q 2", "// c", "/* only */", "b = a + 1;", "#pragma omp for"])
+
+    @st.composite
+    def text(draw):
+        before = draw(st.lists(plain, max_size=2))
+        host = draw(st.one_of(directive, directive, directive2, code))
+        after = draw(st.lists(plain, max_size=2))
+        t = "\n".join(before + [host] + after)
+        if draw(st.integers(0, 3)) == 0 and len(t) > 2:
+            # one more continuation anywhere (texts it makes ill-formed are discarded by the scanner)
+            pos = draw(st.integers(1, len(t) - 1))
+            if t[pos - 1] != "\\" and t[pos - 1:pos + 1] != "\\\n":
+                t = t[:pos] + "\\\n" + t[pos:]
+        if draw(st.integers(0, 4)) != 0:
+            t += "\n"
+        return t
+
+    return text()
+
+
 def balanced_directives(text):
     """#if/#ifdef/#else/#endif in generated directive lines need not balance
     for the file parser, but gcc diagnoses unbalanced ones: used only to
@@ -323,7 +405,7 @@ def gcc_counted_lines(stdout):
     return lines
 
 
-def _rand_shard(seed, n, known, gcc_every):
+def _rand_shard(seed, n, known, gcc_every, which="text"):
     core.setup_import_path()
     import re
 
@@ -359,7 +441,9 @@ def _rand_shard(seed, n, known, gcc_every):
                     return []
             return vs
 
-        core.hyp_search(text_strategy(), chk, n, seed, res, known_sigs=known)
+        core.hyp_search(text_strategy() if which == "text" else star_comment_strategy(), chk, n, seed, res, known_sigs=known)
+        if which != "text":
+            res.extra["star_comment_scenario_cases"] = cnt[0]
     return res
 
 
@@ -401,6 +485,9 @@ def run(ctx):
     jobs = [(_enum_shard, (i, n * 2, L, ctx.known_sigs, max_lines)) for i in range(n * 2)]
     nrand = ctx.pick(12000, 600000)
     jobs += [(_rand_shard, (ctx.shard_seed("rand", i), nrand // n, ctx.known_sigs, ctx.pick(6, 2))) for i in range(n)]
+    # constructed scenario: text behind a multi-line comment one of whose lines ends in '*'
+    nstar, kstar = ctx.pick((1600, 2), (60000, n))
+    jobs += [(_rand_shard, (ctx.shard_seed("star", i), nstar // kstar, ctx.known_sigs, ctx.pick(6, 2), "star")) for i in range(kstar)]
     res = core.merge_results(core.pool_map(_dispatch, [(j,) for j in jobs]))
     res.exhaustive = False
     res.extra["exhaustive_part"] = f"all texts of length <= {L} over the 10-character alphabet with at most {max_lines} newlines that the scanner accepts"
